@@ -13,7 +13,7 @@ strtok strtok_r
 time gettimeofday clock_gettime localtime_r localtime gmtime_r strftime
 getpwuid_r getgrgid_r getpwuid getgrgid getpwnam getlogin_r getlogin getenv setenv unsetenv putenv secure_getenv
 setutent endutent getutline_r getutline utmpname
-syscall sysconf usleep nanosleep sched_yield inet_ntop""".split()
+syscall sysconf usleep nanosleep sched_yield inet_ntop umask sigaction signal sigprocmask pthread_sigmask setrlimit fchdir""".split()
 libc = subprocess.run(["sh", "-c", "ldconfig -p | grep 'libc.so.6 ' | head -1 | sed 's/.*=> //'"], capture_output=True, text=True).stdout.strip() or "/lib/x86_64-linux-gnu/libc.so.6"
 have = set(l.split()[-1].split("@")[0] for l in subprocess.run(["nm", "-D", "--defined-only", libc], capture_output=True, text=True).stdout.split("\n") if l.strip())
 names = [n for n in dict.fromkeys(NAMES) if n in have]
